@@ -246,6 +246,18 @@ class CloseTr:
         return self.conds.get(ast.unparse(e))
 
     @staticmethod
+    def known(c):
+        """the value of a condition that is a constant (a flag the translation is made for: `self.closed` of an appender that
+        was / was not closed before), else None"""
+        c = c.replace(" ", "")
+        while c.startswith("(negb") and c.endswith(")"):
+            inner = CloseTr.known(c[5:-1])
+            return None if inner is None else not inner
+        while c.startswith("(") and c.endswith(")") and c.count("(") == 1:
+            c = c[1:-1]
+        return {"true": True, "false": False}.get(c)
+
+    @staticmethod
     def join(parts):
         parts = [p for p in parts if p != "[]"]
         if not parts:
@@ -255,8 +267,8 @@ class CloseTr:
     def block(self, stmts):
         return self.block2(stmts)[0]
 
-    def block2(self, stmts):
-        """-> (actions of a run without failure, fault points)"""
+    def block2(self, stmts, top=False):
+        """-> (actions of a run without failure, fault points); top: the statements are (the end of) the method's own body"""
         parts = []
         faults = []
         stmts = strip_doc(stmts)
@@ -277,15 +289,32 @@ class CloseTr:
                     if MENTIONS_CLOSE.search(txt):
                         self.block2(s.body), self.block2(s.orelse)      # (reports what is not understood inside, if anything)
                         raise Untranslatable(f"a close under a condition that is not understood: {ast.unparse(s.test)}")
+                    if any(isinstance(n, (ast.Return, ast.Raise, ast.Break, ast.Continue)) for n in ast.walk(s)):
+                        # the rest of the method (its close actions) may be skipped under a condition that is not understood
+                        raise Untranslatable(f"close leaves early under a condition that is not understood: {ast.unparse(s.test)}")
                     faults.append(pre("(Some [])"))
                     continue
-                a, fa = self.block2(s.body)
-                b, fb = self.block2(s.orelse)
-                faults += [pre(f"(fp_when {c} {f})") for f in fa] + [pre(f"(fp_when (negb {c}) {f})") for f in fb]
-                if a == b:
+                body, orelse, rest_taken = list(s.body), list(s.orelse), False
+                if body and isinstance(body[-1], ast.Return) and not orelse and (body[-1].value is None or _is_const(body[-1].value, None)):
+                    # `if c: ..; return` followed by the rest of the method: the rest is the else branch
+                    body, orelse, rest_taken = body[:-1], stmts[i + 1:], True
+                k = self.known(c)
+                a, fa = self.block2(body) if k is not False else ("[]", [])
+                b, fb = self.block2(orelse, top and rest_taken) if k is not True else ("[]", [])
+                if k is True:
+                    faults += [pre(f) for f in fa]
                     parts.append(a)
+                elif k is False:
+                    faults += [pre(f) for f in fb]
+                    parts.append(b)
                 else:
-                    parts.append(f"(if {c} then {a} else {b})")
+                    faults += [pre(f"(fp_when {c} {f})") for f in fa] + [pre(f"(fp_when (negb {c}) {f})") for f in fb]
+                    if a == b:
+                        parts.append(a)
+                    else:
+                        parts.append(f"(if {c} then {a} else {b})")
+                if rest_taken:
+                    break
                 continue
             if isinstance(s, ast.Try) and not s.handlers and not s.orelse and s.finalbody:
                 a, fa = self.block2(s.body)
@@ -300,6 +329,8 @@ class CloseTr:
                     raise Untranslatable(f"close returns a value: {txt}")
                 if i != len(stmts) - 1:
                     raise Untranslatable("return in the middle of a close body")
+                if not top:
+                    raise Untranslatable("return inside a block of a close body (other than `if <known flag>: ..; return`)")
                 continue
             if MENTIONS_CLOSE.search(txt):
                 raise Untranslatable(f"statement mentions close in a shape that is not understood: {txt[:80]}")
@@ -341,9 +372,110 @@ def match_modes(m, body):
     return "match m with " + " | ".join(f"{m_} => {body[m_]}" for m_ in ("MR", "MW", "MA")) + " end"
 
 
+# ---------------------------------------------------------------------------------------------------------------
+# tail calls of new helpers: `return helper(names / constants)` read as the helper's statements
+# ---------------------------------------------------------------------------------------------------------------
+def _always_leaves(stmts):
+    """every path through the statements ends with `return` or `raise` (nothing falls off the end)"""
+    if not stmts:
+        return False
+    s = stmts[-1]
+    if isinstance(s, (ast.Return, ast.Raise)):
+        return True
+    if isinstance(s, ast.If):
+        return _always_leaves(s.body) and _always_leaves(s.orelse)
+    if isinstance(s, ast.Try):
+        return _always_leaves(s.body + s.orelse) and all(_always_leaves(h.body) for h in s.handlers)
+    return False
+
+
+def tail_inlined(mod, fn):
+    """(copy of the FunctionDef `fn`, names of the helpers looked through): every statement `return helper(arguments)` of `fn` that
+    is the last statement of an if / elif / else branch (or of the function), whose callee is a plain module level function that did
+    not exist when this reader was written (py2v.KNOWN_FUNCTIONS) and whose arguments are names or constants, is replaced by the
+    helper's statements, its parameters replaced by the arguments. Returning what the helper returns (or raising what it raises)
+    IS running its statements in place when: every path of the helper ends with return / raise; the arguments are evaluated
+    without side effect (a name, a constant); a parameter the helper assigns to was given a NAME (the caller's variable of that
+    name is then assigned instead - nothing of the caller runs after a tail call); the helper has no nested function, lambda,
+    comprehension scope games (global / nonlocal), yield or decorator. Anything else is left as written (the reader then fails
+    closed as before); a tree without such helpers is returned unchanged."""
+    known = getattr(py2v, "KNOWN_FUNCTIONS", set())
+    helpers = {n.name: n for n in mod.body if isinstance(n, ast.FunctionDef)}
+    used = []
+
+    def body_of(call):
+        if not (isinstance(call, ast.Call) and isinstance(call.func, ast.Name)):
+            return None
+        h = helpers.get(call.func.id)
+        if h is None or h.name in known or h is fn or h.decorator_list:
+            return None
+        a = h.args
+        if a.vararg or a.kwarg or a.posonlyargs:
+            return None
+        params = [p.arg for p in a.args] + [p.arg for p in a.kwonlyargs]
+        defaults = dict(zip([p.arg for p in a.args][len(a.args) - len(a.defaults):], a.defaults))
+        defaults.update({p.arg: d for p, d in zip(a.kwonlyargs, a.kw_defaults) if d is not None})
+        if len(call.args) > len(a.args) or any(isinstance(x, ast.Starred) for x in call.args):
+            return None
+        env = dict(zip([p.arg for p in a.args], call.args))
+        for k in call.keywords:
+            if k.arg is None or k.arg not in params or k.arg in env:
+                return None
+            env[k.arg] = k.value
+        for p in params:
+            if p not in env:
+                if p not in defaults:
+                    return None
+                env[p] = defaults[p]
+        if not all(isinstance(v, (ast.Name, ast.Constant)) for v in env.values()):
+            return None
+        body = strip_doc(h.body)
+        for n in [m for b in body for m in ast.walk(b)]:
+            if isinstance(n, (ast.Global, ast.Nonlocal, ast.Yield, ast.YieldFrom, ast.Await, ast.FunctionDef, ast.AsyncFunctionDef, ast.Lambda, ast.ClassDef)):
+                return None
+            if isinstance(n, ast.Name) and isinstance(n.ctx, (ast.Store, ast.Del)) and n.id in env and not isinstance(env[n.id], ast.Name):
+                return None
+        if not _always_leaves(body):
+            return None
+        # a local of the helper that is not a parameter must not be read before the helper binds it (it could then see the caller's
+        # variable of the same name): the helper itself would raise UnboundLocalError there, so this cannot change a working tree
+
+        class T(ast.NodeTransformer):
+            def visit_Name(self, n):
+                if n.id in env:
+                    v = env[n.id]
+                    if isinstance(v, ast.Name):
+                        return ast.copy_location(ast.Name(id=v.id, ctx=n.ctx), n)
+                    return copy.deepcopy(v)
+                return n
+        used.append(h.name)
+        return [T().visit(copy.deepcopy(s)) for s in body]
+
+    def block(stmts, tail):
+        out = []
+        for i, s in enumerate(stmts):
+            last = tail and i == len(stmts) - 1
+            if isinstance(s, ast.Return) and last:
+                b = body_of(s.value)
+                if b is not None:
+                    out.extend(block(b, True))
+                    continue
+            if isinstance(s, ast.If) and last:
+                s = copy.copy(s)
+                s.body = block(s.body, True)
+                s.orelse = block(s.orelse, True) if s.orelse else s.orelse
+            out.append(s)
+        return out
+    new = copy.copy(fn)
+    new.body = block(list(fn.body), True)
+    if not used:
+        return fn, []
+    return ast.fix_missing_locations(new), used
+
+
 def open_las_branches(repo):
     mod = parse(repo, "laspy/lib.py")
-    f = find_func(mod, "open_las")
+    f, _ = tail_inlined(mod, find_func(mod, "open_las"))       # `return _open_for_reading(source, closefd, ..)` is read as that helper's statements
     chain = None
     for s in strip_doc(f.body):
         if isinstance(s, ast.If) and ast.unparse(s.test) == "mode == 'r'":
@@ -505,12 +637,44 @@ def gen_ownership(repo):
                 "Definition gen_init_closefd (m : omode) (closefd : bool) : bool := " + match_modes("m", vals) + ".\n")
     o.add("gen_init_closefd", init_cf)
 
-    def close_of(rel, cls_name, name, conds, closes):
+    def closed_flag(cls, cls_name):
+        """the attribute (spelt `self.<name>`) that says the object was closed before, or None: __init__ stores False in it once, at
+        top level; close() stores True in it, outside any `if` (so that a first close that got to releasing the stream has set it),
+        and nothing else of the class stores anything in it"""
+        init = find_func(cls, "__init__")
+        cands = [ast.unparse(x.targets[0]) for x in init.body if isinstance(x, ast.Assign) and len(x.targets) == 1 and _is_const(x.value, False)
+                 and isinstance(x.targets[0], ast.Attribute) and ast.unparse(x.targets[0].value) == "self"]
+        close = find_func(cls, "close")
+        for flag in cands:
+            ok, set_in_close = True, False
+            for fn in [n for n in cls.body if isinstance(n, (ast.FunctionDef, ast.AsyncFunctionDef))]:
+                under_if = {id(m) for n in ast.walk(fn) if isinstance(n, ast.If) for b in n.body + n.orelse for m in ast.walk(b)}
+                for n in ast.walk(fn):
+                    stores = [t for t in (n.targets if isinstance(n, ast.Assign) else [n.target] if isinstance(n, (ast.AugAssign, ast.AnnAssign)) else [])
+                              if ast.unparse(t) == flag]
+                    if not stores:
+                        continue
+                    if fn is init and isinstance(n, ast.Assign) and _is_const(n.value, False) and n in init.body:
+                        continue
+                    if fn is close and isinstance(n, ast.Assign) and _is_const(n.value, True):
+                        set_in_close = set_in_close or id(n) not in under_if
+                        continue
+                    ok = False
+            if ok and set_in_close and flag in [ast.unparse(n) for n in ast.walk(close) if isinstance(n, ast.Attribute) and isinstance(n.ctx, ast.Load)]:
+                return flag
+        return None
+
+    def close_of(rel, cls_name, name, conds, closes, again=False):
         def thunk():
-            f = find_func(find_class(parse(repo, rel), cls_name), "close")
+            cls = find_class(parse(repo, rel), cls_name)
+            f = find_func(cls, "close")
             if len(f.args.args) != 1:
                 raise Untranslatable(f"{cls_name}.close takes arguments")
-            t, faults = CloseTr(conds, closes).block2(f.body)
+            flag = closed_flag(cls, cls_name) if again else None
+            first = dict(conds)
+            if flag is not None:
+                first[flag] = "false"           # the object was not closed before
+            t, faults = CloseTr(first, closes).block2(f.body, True)
             if "ActLazyPS" in closes.values():
                 # an action that may raise (the point source is built on the way) must be the last statement the method executes:
                 # the model runs nothing after it
@@ -529,22 +693,54 @@ def gen_ownership(repo):
                     return True
                 if not tail_ok(f.body, True):
                     raise Untranslatable(f"{cls_name}.close: statements may run after `self.point_source.close()`, which can raise")
-            return (f"Definition {name} (closefd has_ps src_some : bool) : list cact := {t}.\n"
-                    f"(* the statements of {cls_name}.close that may use the stream and raise, with the close actions run all the same *)\n"
-                    f"Definition {name}_faults (closefd has_ps src_some : bool) : list fault_point := [" + "; ".join(faults) + "].\n")
+            out = (f"Definition {name} (closefd has_ps src_some : bool) : list cact := {t}.\n"
+                   f"(* the statements of {cls_name}.close that may use the stream and raise, with the close actions run all the same *)\n"
+                   f"Definition {name}_faults (closefd has_ps src_some : bool) : list fault_point := [" + "; ".join(faults) + "].\n")
+            if again:
+                second = dict(conds)
+                if flag is not None:
+                    second[flag] = "true"
+                t2, faults2 = CloseTr(second, closes).block2(f.body, True)
+                out += (f"(* {cls_name}.close called AGAIN on an object that was closed before"
+                        + (f" (its flag `{flag}`, False since __init__, was set by the first close)" if flag else " (the class keeps no flag that says so: the same method runs again)") + " *)\n"
+                        f"Definition {name}_again (closefd has_ps src_some : bool) : list cact := {t2}.\n"
+                        f"Definition {name}_again_faults (closefd has_ps src_some : bool) : list fault_point := [" + "; ".join(faults2) + "].\n")
+            return out
         return thunk
 
     o.add("gen_close_reader", close_of(
         "laspy/lasreader.py", "LasReader", "gen_close_reader",
         {"self.closefd": "closefd", "self._point_source is not None": "has_ps", "self._point_source is None": "(negb has_ps)",
          "self._source is not None": "src_some"},
-        {"self._point_source.close()": "ActPS", "self._source.close()": "ActSrc", "self.point_source.close()": "ActLazyPS"}))
+        {"self._point_source.close()": "ActPS", "self._source.close()": "ActSrc", "self.point_source.close()": "ActLazyPS"}, again=True))
     o.add("gen_close_writer", close_of(
         "laspy/laswriter.py", "LasWriter", "gen_close_writer",
-        {"self.closefd": "closefd"}, {"self.dest.close()": "ActSrc"}))
+        {"self.closefd": "closefd"}, {"self.dest.close()": "ActSrc"}, again=True))
     o.add("gen_close_appender", close_of(
         "laspy/lasappender.py", "LasAppender", "gen_close_appender",
-        {"self.closefd": "closefd"}, {"self.dest.close()": "ActSrc"}))
+        {"self.closefd": "closefd"}, {"self.dest.close()": "ActSrc"}, again=True))
+
+    def use_after_close():
+        """what write_points / append_points do FIRST on an object whose close() has run: the method starts with
+        `if self.<flag>: raise X(..)` where close() stores True in that flag outside any `if` -> Some (class of X); otherwise None
+        (the method goes on to the stream: not modelled). A reader has no such method."""
+        vals = {"MR": "None"}
+        for g, cls_name, rel, meth in (("MW", "LasWriter", "laspy/laswriter.py", "write_points"), ("MA", "LasAppender", "laspy/lasappender.py", "append_points")):
+            cls = find_class(parse(repo, rel), cls_name)
+            body = strip_doc(find_func(cls, meth).body)
+            close = find_func(cls, "close")
+            under_if = {id(m) for n in ast.walk(close) if isinstance(n, ast.If) for b in n.body + n.orelse for m in ast.walk(b)}
+            set_true = {ast.unparse(n.targets[0]) for n in ast.walk(close) if isinstance(n, ast.Assign) and len(n.targets) == 1
+                        and _is_const(n.value, True) and id(n) not in under_if}
+            vals[g] = "None"
+            if body and isinstance(body[0], ast.If) and not body[0].orelse and ast.unparse(body[0].test) in set_true \
+                    and len(body[0].body) == 1 and isinstance(body[0].body[0], ast.Raise) and body[0].body[0].exc is not None:
+                e = body[0].body[0].exc
+                nm = ast.unparse(e.func if isinstance(e, ast.Call) else e)
+                vals[g] = "(Some XLaspy)" if nm in ("LaspyException", "errors.LaspyException") else "(Some XOther)"
+        return ("(* write_points / append_points on an object that was closed: refused at once with this exception (None: no such guard) *)\n"
+                "Definition gen_use_after_close (m : omode) : option exn := " + match_modes("m", vals) + ".\n")
+    o.add("gen_use_after_close", use_after_close)
     ps_conds = {"self._source is not None": "src_some", "self.source is not None": "src_some",
                 "self._source is None": "(negb src_some)", "self.source is None": "(negb src_some)"}
     ps_closes = {"self._source.close()": "ActSrc", "self.source.close()": "ActSrc"}
@@ -581,6 +777,22 @@ def gen_ownership(repo):
         fresh = ("open", "io.BytesIO", "BytesIO", "io.StringIO", "tempfile.TemporaryFile", "np.errstate", "numpy.errstate",
                  "warnings.catch_warnings", "contextlib.suppress")
         bad = []
+        # new module level helpers of lib.py that open_las ends with (`return _open_for_reading(..)`) were analysed as part of open_las
+        # (tail_inlined) - provided nothing else refers to them: every mention of their name is the callee of such a tail call
+        lib = parse(repo, "laspy/lib.py")
+        ol = find_func(lib, "open_las")
+        _, looked_through = tail_inlined(lib, ol)
+        for hname in sorted(set(looked_through)):
+            tails = {id(n.value.func) for n in ast.walk(ol) if isinstance(n, ast.Return) and isinstance(n.value, ast.Call)
+                     and isinstance(n.value.func, ast.Name) and n.value.func.id == hname}
+            for rel in files:
+                if not os.path.exists(os.path.join(repo, rel)):
+                    continue
+                for n in ast.walk(lib if rel == "laspy/lib.py" else parse(repo, rel)):
+                    if (isinstance(n, ast.Name) and n.id == hname and id(n) not in tails) or (isinstance(n, ast.Attribute) and n.attr == hname) \
+                            or (isinstance(n, ast.alias) and hname in (n.name, n.asname)):
+                        bad.append(f"{rel}: helper {hname} of open_las is used elsewhere (line {getattr(n, 'lineno', '?')})")
+            analysed.add(f"laspy/lib.py:{hname}")
 
         def visit(rel, node, qual):
             for c in ast.iter_child_nodes(node):
